@@ -94,8 +94,9 @@ def scan(text):
 
 
 NAMES = ["Source", "Package", "A", "xY", "Depends", "Description"]
-FIRST = ["v", "  v  ", "", "a, b", "1.0 (x)"]
-CONT = [" c1\n", "\tc2 \n", " .\n", " d, e\n"]
+from vf import tricky
+FIRST = ["v", "  v  ", "", "a, b", "1.0 (x)"] + tricky.VALUE_BITS
+CONT = [" c1\n", "\tc2 \n", " .\n", " d, e\n"] + [" %s\n" % b for b in tricky.VALUE_BITS]
 
 
 def gen_field(rng, name, unique_vals=True):
